@@ -1,7 +1,7 @@
-(* Lemmas about the two-client MODEL (ServerWrite2Model.v): the invariant of the cache of collected
-   poll events, "a suspended client gets no onRead" for the two-client machine, and the embedding
-   of the one-client model. *)
-From Coq Require Import ZArith List Bool Lia.
+(* Lemmas about the n-client MODEL (ServerWrite2Model.v; clients are numbered, the state holds a list
+   of clients): the invariant of the cache of collected poll events, "a suspended client gets no
+   onRead" for the n-client machine, and the embedding of the one-client model (as client 0). *)
+From Coq Require Import ZArith List Bool Lia PeanoNat.
 From ServerWrite Require Import ServerWriteSpec ServerWriteModel ServerWriteProofs ServerWriteTheorems
   ServerWrite2Spec ServerWrite2Model.
 Import ListNotations.
@@ -26,31 +26,78 @@ Definition entry_ok (s : st) (e : entry) : Prop :=
 Definition sel_ok (m : st2) (l : list entry) : Prop := Forall (fun e => entry_ok (get2 m (e_c e)) e) l.
 
 Record inv2 (m : st2) : Prop := mkinv2 {
-  i2_a : inv (cl0 m);
-  i2_b : inv (cl1 m);
+  i2_cl : forall c, inv (get2 m c);
   i2_sel : sel_ok m (sel m)
 }.
 
+(* ---- the map from client numbers (getc / setc of ServerWrite2Spec.v) ------------------------- *)
+
+Lemma getc_nil {A} (d : A) c : getc d [] c = d.
+Proof. unfold getc. destruct c; reflexivity. Qed.
+
+Lemma getc_setc_same {A} (d : A) l c x : getc d (setc d l c x) c = x.
+Proof.
+  unfold getc. revert l. induction c as [|c IH]; intros [|h t]; cbn [setc nth]; auto.
+Qed.
+
+Lemma getc_setc_other {A} (d : A) l c c' x : c' <> c -> getc d (setc d l c x) c' = getc d l c'.
+Proof.
+  unfold getc. revert l c'. induction c as [|c IH]; intros [|h t] [|c'] H; cbn [setc nth]; try congruence.
+  - destruct c'; reflexivity.
+  - rewrite IH by congruence. destruct c'; reflexivity.
+  - apply IH. congruence.
+Qed.
+
+Lemma existsb_setc_false {A} (f : A -> bool) d l c x :
+  f d = false -> f x = false -> existsb f l = false -> existsb f (setc d l c x) = false.
+Proof.
+  intros Hd Hx. revert l. induction c as [|c IH]; intros [|h t] H; cbn [setc existsb] in *.
+  - rewrite Hx. reflexivity.
+  - apply orb_false_iff in H. destruct H as [_ H]. rewrite Hx, H. reflexivity.
+  - rewrite Hd. apply (IH []). reflexivity.
+  - apply orb_false_iff in H. destruct H as [H1 H2]. rewrite H1. apply IH. assumption.
+Qed.
+
+Lemma existsb_setc_true {A} (f : A -> bool) d l c x : f x = true -> existsb f (setc d l c x) = true.
+Proof.
+  intros Hx. revert l. induction c as [|c IH]; intros [|h t]; cbn [setc existsb].
+  - rewrite Hx. reflexivity.
+  - rewrite Hx. reflexivity.
+  - rewrite (IH []). apply orb_true_r.
+  - rewrite IH. apply orb_true_r.
+Qed.
+
+Lemma existsb_getc_false {A} (f : A -> bool) d l c : f d = false -> existsb f l = false -> f (getc d l c) = false.
+Proof.
+  intros Hd. unfold getc. revert l. induction c as [|c IH]; intros [|h t] H; cbn [nth existsb] in *; auto.
+  - apply orb_false_iff in H. tauto.
+  - apply IH. apply orb_false_iff in H. tauto.
+Qed.
+
+Lemma get2_init2 c : get2 init2 c = init.
+Proof. apply getc_nil. Qed.
+
 Lemma inv2_init : inv2 init2.
-Proof. split; try apply inv_init. constructor. Qed.
+Proof. split; [intros c; rewrite get2_init2; apply inv_init | constructor]. Qed.
 
 Lemma get2_put2_same m c s s' l : get2 (put2 m c s s' l) c = s'.
-Proof. destruct c; reflexivity. Qed.
+Proof. apply getc_setc_same. Qed.
 
 Lemma get2_put2_other m c d s s' l : d <> c -> get2 (put2 m c s s' l) d = get2 m d.
-Proof. destruct c, d; try congruence; reflexivity. Qed.
+Proof. apply getc_setc_other. Qed.
 
 Lemma sel_put2 m c s s' l : sel (put2 m c s s' l) = resel c s s' l.
-Proof. destruct c; reflexivity. Qed.
+Proof. reflexivity. Qed.
 
-Lemma eqb_false_neq (a b : bool) : eqb a b = false -> a <> b.
-Proof. destruct a, b; simpl; congruence. Qed.
+(* the client numbers are compared with Nat.eqb *)
+Lemma eqb_false_neq (a b : nat) : Nat.eqb a b = false -> a <> b.
+Proof. apply Nat.eqb_neq. Qed.
 
-Lemma eqb_true_eq (a b : bool) : eqb a b = true -> a = b.
-Proof. apply eqb_prop. Qed.
+Lemma eqb_true_eq (a b : nat) : Nat.eqb a b = true -> a = b.
+Proof. apply Nat.eqb_eq. Qed.
 
 (* Poll::set on a known socket: what is left of the cache stays within the new registration *)
-Lemma revoke_ok c or ow nr nw (P : bool -> entry -> Prop) l :
+Lemma revoke_ok c or ow nr nw (P : nat -> entry -> Prop) l :
   (forall e, In e l -> e_c e <> c -> P (e_c e) e) ->
   (forall e, In e l -> e_c e = c -> (e_r e = true -> or = true) /\ (e_w e = true -> ow = true)) ->
   (forall e, e_c e = c -> (e_r e = true -> nr = true) -> (e_w e = true -> nw = true) -> P c e) ->
@@ -58,12 +105,12 @@ Lemma revoke_ok c or ow nr nw (P : bool -> entry -> Prop) l :
 Proof.
   intros Hother Hold Hnew e. unfold revoke.
   destruct (eqb or nr && eqb ow nw) eqn:Esame.
-  - apply andb_true_iff in Esame. destruct Esame as [A B]. apply eqb_true_eq in A, B. subst nr nw.
-    intros Hin. destruct (Bool.bool_dec (e_c e) c) as [Ec|Ec].
+  - apply andb_true_iff in Esame. destruct Esame as [A B]. apply eqb_prop in A, B. subst nr nw.
+    intros Hin. destruct (Nat.eq_dec (e_c e) c) as [Ec|Ec].
     + rewrite Ec. destruct (Hold e Hin Ec) as [X Y]. apply Hnew; auto.
     + apply Hother; auto.
   - intros Hin. apply in_flat_map in Hin. destruct Hin as [e0 [Hin0 Hin]].
-    destruct (eqb (e_c e0) c) eqn:Ec.
+    destruct (Nat.eqb (e_c e0) c) eqn:Ec.
     + apply eqb_true_eq in Ec. destruct (Hold e0 Hin0 Ec) as [X Y].
       destruct (e_r e0 && negb (or && negb nr) || e_w e0 && negb (ow && negb nw)) eqn:Ek; [|destruct Hin].
       destruct Hin as [<-|[]]. simpl. apply Hnew; simpl; auto.
@@ -98,11 +145,11 @@ Proof.
       * intros H. apply B; assumption.
     + intros e0 Ec A B. rewrite get2_put2_same. split; [assumption | split; assumption].
   - (* the socket was not registered: it has no cached event *)
-    destruct (Bool.bool_dec (e_c e) c) as [Ec|Ec].
+    destruct (Nat.eq_dec (e_c e) c) as [Ec|Ec].
     + exfalso. specialize (Hok e Hin). rewrite Ec, <- Hs in Hok. destruct Hok as [A _]. congruence.
     + apply Hoth; assumption.
   - apply forget_in in Hin. destruct Hin as [A B]. apply Hoth; assumption.
-  - destruct (Bool.bool_dec (e_c e) c) as [Ec|Ec].
+  - destruct (Nat.eq_dec (e_c e) c) as [Ec|Ec].
     + exfalso. specialize (Hok e Hin). rewrite Ec, <- Hs in Hok. destruct Hok as [A _]. congruence.
     + apply Hoth; assumption.
 Qed.
@@ -110,9 +157,9 @@ Qed.
 Lemma put2_inv2 m c s s' l :
   inv2 m -> s = get2 m c -> inv s' -> sel_ok m l -> inv2 (put2 m c s s' l).
 Proof.
-  intros [Ha Hb _] Hs Hi Hok. split.
-  - destruct c; simpl; assumption.
-  - destruct c; simpl; assumption.
+  intros [Ha _] Hs Hi Hok. split.
+  - intros d. destruct (Nat.eq_dec d c) as [->|Hne];
+      [rewrite get2_put2_same; assumption | rewrite get2_put2_other by assumption; apply Ha].
   - rewrite sel_put2. apply put2_sel_ok; assumption.
 Qed.
 
@@ -164,19 +211,19 @@ Proof.
   split; intros H; apply andb_true_iff in H; tauto.
 Qed.
 
+Lemma collect_get2 m evs d : get2 (collect m evs) d = get2 m d.
+Proof. reflexivity. Qed.
+
 Lemma collect_inv2 m evs : inv2 m -> inv2 (collect m evs).
 Proof.
-  intros [Ha Hb _]. split; simpl; try assumption.
+  intros [Ha _]. split; [exact Ha|].
   unfold sel_ok. simpl. rewrite Forall_forall. intros e Hin. apply in_flat_map in Hin.
   destruct Hin as [[c n] [_ Hin]]. simpl in Hin. apply collect_one_ok in Hin. destruct Hin as [<- Hok].
   exact Hok.
 Qed.
 
-Lemma collect_get2 m evs d : get2 (collect m evs) d = get2 m d.
-Proof. destruct d; reflexivity. Qed.
-
 Lemma inv_get2 m c : inv2 m -> inv (get2 m c).
-Proof. intros [Ha Hb _]. destruct c; assumption. Qed.
+Proof. intros [Ha _]. apply Ha. Qed.
 
 (* ---- one step ---------------------------------------------------------------------------------- *)
 
@@ -200,7 +247,7 @@ Qed.
 
 Lemma inv2_step m x m' r : inv2 m -> step2 m x = (m', r) -> inv2 m'.
 Proof.
-  intros Hinv H. unfold step2 in H. destruct x as [c y | first n0 n1 | o |].
+  intros Hinv H. unfold step2 in H. destruct x as [c y | evs | o |].
   - assert (Hsingle : forall n o,
       match sel m with
       | [] => if removed (get2 m c) then (m, mkout2 (Some c) out_dead false) else deliver (collect m [(c, n)]) o
@@ -245,7 +292,7 @@ Proof.
     destruct (is_nil (sendbuf s)); simpl in B; congruence.
 Qed.
 
-(* ---- a suspended client gets no onRead: two clients, events cached across callbacks ------------ *)
+(* ---- a suspended client gets no onRead: n clients, events cached across callbacks -------------- *)
 
 Lemma deliver_suspended_no_onRead m o m' r c :
   inv2 m -> suspended (get2 m c) = true -> deliver m o = (m', r) -> o2_c r = Some c ->
@@ -265,7 +312,7 @@ Lemma step2_suspended_no_onRead m x m' r c :
   inv2 m -> suspended (get2 m c) = true -> step2 m x = (m', r) -> o2_c r = Some c ->
   ~ In OnRead (o_cbs (o2_out r)).
 Proof.
-  intros Hinv Hsu H Hc. unfold step2 in H. destruct x as [c' y | first n0 n1 | o |].
+  intros Hinv Hsu H Hc. unfold step2 in H. destruct x as [c' y | evs | o |].
   - assert (Hsingle : forall n o,
       match sel m with
       | [] => if removed (get2 m c') then (m, mkout2 (Some c') out_dead false) else deliver (collect m [(c', n)]) o
@@ -297,10 +344,10 @@ Proof.
 Qed.
 
 (* the operations the application issued on client c, in order *)
-Fixpoint ops_of (c : bool) (l : list op2) : list op :=
+Fixpoint ops_of (c : nat) (l : list op2) : list op :=
   match l with
   | [] => []
-  | On d y :: l' => if eqb d c then y :: ops_of c l' else ops_of c l'
+  | On d y :: l' => if Nat.eqb d c then y :: ops_of c l' else ops_of c l'
   | _ :: l' => ops_of c l'
   end.
 
@@ -308,7 +355,7 @@ Lemma put2_suspended m c d s s' l :
   s = get2 m c -> (suspended s' = suspended s \/ d <> c) ->
   d <> c \/ suspended (get2 (put2 m c s s' l) d) = suspended (get2 m d).
 Proof.
-  intros Hs [H|H]; [|left; assumption]. destruct (Bool.bool_dec d c) as [->|Hne]; [right | left; assumption].
+  intros Hs [H|H]; [|left; assumption]. destruct (Nat.eq_dec d c) as [->|Hne]; [right | left; assumption].
   rewrite get2_put2_same. congruence.
 Qed.
 
@@ -318,7 +365,7 @@ Lemma deliver_keeps_suspended m o m' r d :
 Proof.
   unfold deliver. destruct (sel m) as [|e l]. { intros H; inv_pair H. auto. }
   destruct (dispatch_flags (get2 m (e_c e)) (e_r e) (e_w e) o) as [s' x] eqn:Ed. intros H. inv_pair H.
-  destruct (Bool.bool_dec d (e_c e)) as [->|Hne].
+  destruct (Nat.eq_dec d (e_c e)) as [->|Hne].
   - rewrite get2_put2_same. eapply dispatch_flags_suspended; eauto.
   - rewrite get2_put2_other by assumption. auto.
 Qed.
@@ -327,7 +374,7 @@ Lemma step2_suspended m x m' r c :
   inv2 m -> step2 m x = (m', r) -> removed (get2 m' c) = false ->
   suspended (get2 m' c) = susp_of_ops (ops_of c [x]) (suspended (get2 m c)).
 Proof.
-  intros Hinv H Hrm. unfold step2 in H. destruct x as [c' y | first n0 n1 | o |]; simpl ops_of.
+  intros Hinv H Hrm. unfold step2 in H. destruct x as [c' y | evs | o |]; simpl ops_of.
   - assert (Hsingle : forall n o,
       match sel m with
       | [] => if removed (get2 m c') then (m, mkout2 (Some c') out_dead false) else deliver (collect m [(c', n)]) o
@@ -336,7 +383,7 @@ Proof.
     { intros n o Hs. destruct (sel m); [|inv_pair Hs; reflexivity].
       destruct (removed (get2 m c')); [inv_pair Hs; reflexivity|].
       apply (deliver_keeps_suspended _ _ _ _ c) in Hs. rewrite collect_get2 in Hs. tauto. }
-    destruct (eqb c' c) eqn:Ec.
+    destruct (Nat.eqb c' c) eqn:Ec.
     + apply eqb_true_eq in Ec. subst c'.
       destruct y; try (rewrite (Hsingle _ _ H); reflexivity);
         match type of H with context [step ?s ?y] => destruct (step s y) as [s' r'] eqn:Es end;
@@ -350,13 +397,13 @@ Proof.
   - simpl. apply (deliver_keeps_suspended _ _ _ _ c) in H. tauto.
   - simpl. destruct (closq m) as [|c' k]; [inv_pair H; reflexivity|].
     destruct (step (get2 m c') CloseSweep) as [s' r'] eqn:Es. inv_pair H.
-    destruct (Bool.bool_dec c c') as [->|Hne].
+    destruct (Nat.eq_dec c c') as [->|Hne].
     + rewrite get2_put2_same in *. rewrite (step_suspended _ _ _ _ (inv_get2 m c' Hinv) Es Hrm). reflexivity.
     + rewrite get2_put2_other by assumption. reflexivity.
 Qed.
 
 Lemma ops_of_cons c x l : ops_of c (x :: l) = ops_of c [x] ++ ops_of c l.
-Proof. destruct x as [d y| | |]; simpl; auto. destruct (eqb d c); reflexivity. Qed.
+Proof. destruct x as [d y| | |]; simpl; auto. destruct (Nat.eqb d c); reflexivity. Qed.
 
 Lemma susp_of_ops_app a b cur : susp_of_ops (a ++ b) cur = susp_of_ops b (susp_of_ops a cur).
 Proof.
@@ -367,7 +414,7 @@ Qed.
 (* removal is final *)
 Lemma step2_removed m x m' r c : step2 m x = (m', r) -> removed (get2 m c) = true -> removed (get2 m' c) = true.
 Proof.
-  intros H Hrm. unfold step2 in H. destruct x as [c' y | first n0 n1 | o |].
+  intros H Hrm. unfold step2 in H. destruct x as [c' y | evs | o |].
   - assert (Hsingle : forall n o,
       match sel m with
       | [] => if removed (get2 m c') then (m, mkout2 (Some c') out_dead false) else deliver (collect m [(c', n)]) o
@@ -378,14 +425,14 @@ Proof.
       apply (deliver_keeps_suspended _ _ _ _ c) in Hs. rewrite collect_get2 in Hs. destruct Hs as [_ ->]. assumption. }
     destruct y; try (apply (Hsingle _ _ H));
       match type of H with context [step ?s ?y] => destruct (step s y) as [s' r'] eqn:Es end;
-      inv_pair H; (destruct (Bool.bool_dec c c') as [->|Hne];
+      inv_pair H; (destruct (Nat.eq_dec c c') as [->|Hne];
         [rewrite get2_put2_same; rewrite step_removed in Es by assumption; inv_pair Es; assumption
         | rewrite get2_put2_other by assumption; assumption]).
   - destruct (sel m); inv_pair H; try rewrite collect_get2; assumption.
   - apply (deliver_keeps_suspended _ _ _ _ c) in H. destruct H as [_ ->]. assumption.
   - destruct (closq m) as [|c' k]; [inv_pair H; assumption|].
     destruct (step (get2 m c') CloseSweep) as [s' r'] eqn:Es. inv_pair H.
-    destruct (Bool.bool_dec c c') as [->|Hne].
+    destruct (Nat.eq_dec c c') as [->|Hne].
     + rewrite get2_put2_same. rewrite step_removed in Es by assumption. inv_pair Es. assumption.
     + rewrite get2_put2_other by assumption. assumption.
 Qed.
@@ -418,7 +465,7 @@ Proof.
   destruct (removed (get2 m c)) eqn:Erm.
   - (* a removed client gets no callback at all *)
     subst r. destruct (step2 m x) as [m' r] eqn:E. simpl in *. unfold step2 in E.
-    destruct x as [c' y | first n0 n1 | o |].
+    destruct x as [c' y | evs | o |].
     + assert (Hsingle : forall n o,
         match sel m with
         | [] => if removed (get2 m c') then (m, mkout2 (Some c') out_dead false) else deliver (collect m [(c', n)]) o
@@ -447,7 +494,7 @@ Proof.
     pose proof (exec2_suspended ops init2 c inv2_init) as Hsu. fold m in Hsu. rewrite Hsu by assumption. destruct c; exact Hs.
 Qed.
 
-(* ---- the one-client model is the two-client model with client B left alone ---------------------- *)
+(* ---- the one-client model is the n-client model with every client but client 0 left alone ------ *)
 
 Lemma resel_nil c s s' : resel c s s' [] = [].
 Proof. unfold resel, revoke, forget. destruct (registered s'), (registered s); simpl; auto.
@@ -455,50 +502,60 @@ Proof. unfold resel, revoke, forget. destruct (registered s'), (registered s); s
 
 Lemma single_step_embeds m y :
   sel m = [] ->
-  let '(s', r) := step (cl0 m) y in
-  let '(m', r2) := step2 m (On false y) in
-  cl0 m' = s' /\ cl1 m' = cl1 m /\ sel m' = [] /\ o2_out r2 = r.
+  let '(s', r) := step (get2 m 0%nat) y in
+  let '(m', r2) := step2 m (On 0%nat y) in
+  get2 m' 0%nat = s' /\ (forall d, d <> 0%nat -> get2 m' d = get2 m d) /\ sel m' = [] /\ o2_out r2 = r.
 Proof.
   intros Hsel.
+  assert (Hput : forall s s' r, let m' := put2 m 0%nat s s' [] in
+    get2 m' 0%nat = s' /\ (forall d, d <> 0%nat -> get2 m' d = get2 m d) /\ sel m' = [] /\
+    o2_out (mkout2 (Some 0%nat) r false) = r).
+  { intros s s' r m'. subst m'. rewrite get2_put2_same, sel_put2, resel_nil.
+    repeat split; auto. intros d Hd. apply get2_put2_other; assumption. }
   assert (Hsingle : forall n o,
-    removed (cl0 m) = false ->
-    let '(s', r) := dispatch (cl0 m) n o in
-    let '(m', r2) := deliver (collect m [(false, n)]) o in
-    cl0 m' = s' /\ cl1 m' = cl1 m /\ sel m' = [] /\ o2_out r2 = r).
-  { intros n o Hrm. unfold dispatch, deliver, collect. simpl. unfold collect_one.
-    destruct (registered (cl0 m)); simpl; [|auto].
-    destruct (reported (kernel_filter (cl0 m) n)); simpl; [|auto].
-    unfold unmap_events. simpl.
+    removed (get2 m 0%nat) = false ->
+    let '(s', r) := dispatch (get2 m 0%nat) n o in
+    let '(m', r2) := deliver (collect m [(0%nat, n)]) o in
+    get2 m' 0%nat = s' /\ (forall d, d <> 0%nat -> get2 m' d = get2 m d) /\ sel m' = [] /\ o2_out r2 = r).
+  { intros n o Hrm. unfold dispatch, deliver.
+    assert (Ec : sel (collect m [(0%nat, n)]) = collect_one (get2 m 0%nat) 0%nat n)
+      by (cbn [collect sel flat_map fst snd]; apply app_nil_r).
+    rewrite Ec. unfold collect_one in *.
+    destruct (registered (get2 m 0%nat)); cbn [negb] in *; [|repeat split; auto].
+    destruct (reported (kernel_filter (get2 m 0%nat) n)); cbn [negb] in *; [|repeat split; auto].
+    unfold unmap_events. cbn [e_c e_r e_w]. rewrite collect_get2.
     match goal with |- context [dispatch_flags ?a ?b ?c ?d] => destruct (dispatch_flags a b c d) as [s' x] end.
-    cbn [cl0 cl1 sel o2_out]. rewrite resel_nil. auto. }
-  destruct (step (cl0 m) y) as [s' r] eqn:Es. unfold step2. simpl get2.
-  unfold step in Es. destruct (removed (cl0 m)) eqn:Erm.
-  - inv_pair Es. destruct y; rewrite ?Hsel; simpl; unfold step; rewrite ?Erm; simpl; rewrite ?Hsel; auto using resel_nil.
+    destruct (Hput (get2 m 0%nat) s' x) as [A [B [C D]]].
+    repeat split; auto. }
+  destruct (step (get2 m 0%nat) y) as [s' r] eqn:Es. unfold step2.
+  unfold step in Es. destruct (removed (get2 m 0%nat)) eqn:Erm.
+  - inv_pair Es. destruct y; rewrite ?Hsel; unfold step; rewrite ?Erm; try apply Hput; repeat split; auto.
   - destruct y;
       try (specialize (Hsingle n o eq_refl); rewrite Es in Hsingle; rewrite Hsel; exact Hsingle);
-      try (specialize (Hsingle (real_native (inbound (cl0 m)) (peer_closed (cl0 m))) o eq_refl);
+      try (specialize (Hsingle (real_native (inbound (get2 m 0%nat)) (peer_closed (get2 m 0%nat))) o eq_refl);
            rewrite Es in Hsingle; rewrite Hsel; exact Hsingle);
-      unfold step; rewrite Erm; first [rewrite Es | inv_pair Es]; simpl; rewrite Hsel; auto using resel_nil.
+      unfold step; rewrite Erm; first [rewrite Es | inv_pair Es]; rewrite Hsel; apply Hput.
 Qed.
 
 Lemma embedding_lemma ops : forall m,
   sel m = [] ->
-  let '(s, outs) := exec (cl0 m) ops in
-  let '(m', outs2) := exec2 m (map (On false) ops) in
-  cl0 m' = s /\ cl1 m' = cl1 m /\ map o2_out outs2 = outs.
+  let '(s, outs) := exec (get2 m 0%nat) ops in
+  let '(m', outs2) := exec2 m (map (On 0%nat) ops) in
+  get2 m' 0%nat = s /\ (forall d, d <> 0%nat -> get2 m' d = get2 m d) /\ map o2_out outs2 = outs.
 Proof.
   induction ops as [|y ops IH]; intros m Hsel; cbn [exec exec2 map]. { auto. }
   pose proof (single_step_embeds m y Hsel) as H1.
-  destruct (step (cl0 m) y) as [s1 r1]. destruct (step2 m (On false y)) as [m1 r2].
+  destruct (step (get2 m 0%nat) y) as [s1 r1]. destruct (step2 m (On 0%nat y)) as [m1 r2].
   destruct H1 as [A [B [C D]]]. specialize (IH m1 C). rewrite A in IH.
-  destruct (exec s1 ops) as [s2 outs]. destruct (exec2 m1 (map (On false) ops)) as [m2 outs2].
-  destruct IH as [E [F G]]. cbn [map]. split; [exact E | split; [congruence | rewrite D, G; reflexivity]].
+  destruct (exec s1 ops) as [s2 outs]. destruct (exec2 m1 (map (On 0%nat) ops)) as [m2 outs2].
+  destruct IH as [E [F G]]. cbn [map].
+  split; [exact E | split; [intros d Hd; rewrite F by assumption; apply B; assumption | rewrite D, G; reflexivity]].
 Qed.
 
 Lemma embedding_init_lemma ops :
-  cl0 (fst (exec2 init2 (map (On false) ops))) = fst (exec init ops) /\
-  map o2_out (snd (exec2 init2 (map (On false) ops))) = snd (exec init ops).
+  get2 (fst (exec2 init2 (map (On 0%nat) ops))) 0%nat = fst (exec init ops) /\
+  map o2_out (snd (exec2 init2 (map (On 0%nat) ops))) = snd (exec init ops).
 Proof.
-  pose proof (embedding_lemma ops init2 eq_refl) as H. simpl in H.
-  destruct (exec init ops). destruct (exec2 init2 (map (On false) ops)). simpl. tauto.
+  pose proof (embedding_lemma ops init2 eq_refl) as H. rewrite get2_init2 in H.
+  destruct (exec init ops). destruct (exec2 init2 (map (On 0%nat) ops)). simpl. tauto.
 Qed.
